@@ -8,6 +8,8 @@ for f in sorted(glob.glob('/tmp/mut_out/results/*.json'), key=os.path.getmtime):
     sid = os.path.basename(f).split('.')[0]          # C04_2
     res.setdefault(sid, []).append(f)
 for sid, files in sorted(res.items()):
+    if sid.startswith('REFAC'):
+        continue
     pid, k = sid.split('_')
     seed = f'/tmp/mut_out/{pid}/{k}'
     if not os.path.isdir(seed):
